@@ -1,4 +1,4 @@
-from .common import grid_plan, need_classes
+from .common import pytest_contracts_job, grid_plan, need_classes
 
 LEVEL = "exploration"
 RULE = (
@@ -10,6 +10,13 @@ ASSUMPTIONS = ["faces within 1e-5 m of the wall may be classified either way (a 
 
 
 def plan(tier, seed):
+    p_ = _plan(tier, seed)
+    if tier == "thorough":
+        p_.setdefault("jobs", []).append(pytest_contracts_job())
+    return p_
+
+
+def _plan(tier, seed):
     return grid_plan(tier, seed, "C11", filt=lambda s: s.get("kind", "tok") == "tok")
 
 
